@@ -64,10 +64,11 @@ def run(ctx):
     storecheck.run(ctx, CHECKS)
     load_pass(ctx)
     crossworld.symmetry_pass(ctx)
+    crossworld.notification_pass(ctx, tag='C01u', judge='symmetry')
     ctx.rule += ('; plus saved XMI / JSON documents with one end of a bidirectional reference rewritten (another valid target, a '
                  'target dropped, a target given twice), loaded: symmetry of every opposite pair in whatever loads; plus models spread over 2-3 '
                  'XMI / JSON resources, saved, reloaded in a fresh resource set with every reference followed: bidirectional references '
-                 're-pointed / extended / reduced with the instances, symmetry (proxies standing for their targets) after every call')
+                 're-pointed / extended / reduced with the instances, symmetry (proxies standing for their targets) after every call; and the same worlds with nothing followed: unresolved proxies, local objects and None stored, symmetry among the objects of the loaded resource after every call')
 
 
 def search(ctx):
